@@ -134,6 +134,8 @@ def random_log(rng, directed):
         k = key(directed, u, v)
         if k in latest and latest[k] < t and rng.random() < 0.5:
             rows.append([u, v, 0, t]); open_.discard(k)
+            if rng.random() < 0.2:
+                rows.append([v, u, 0, t] if not directed and rng.random() < 0.5 else [u, v, 0, t])   # a redundant second '-'
             if rng.random() < 0.7:
                 latest.pop(k)      # usually do not emit a second '-' for the same appearance
         elif k not in latest or latest[k] < t:
@@ -150,7 +152,11 @@ class C10:
     def cases(tier, rng):
         n = 1200 if tier == "quick" else 15000
         k = 0
-        for c in io_histories(tier, rng, n):
+        # streams longer than any plausible write buffer (1024 / 4096 rows): a ring of pairs, each with a closed run
+        long_cases = [hist_case(d, True, [["add", i, i + 1, 1 + (i % 7), 3 + (i % 7) + (i % 3)] for i in range(1, m)], src="corpus-long")
+                      for d, m in ((0, 620), (1, 2200))]
+        import itertools as _it
+        for c in _it.chain(long_cases, io_histories(tier, rng, n)):
             c["io"] = [k % 4, (k // 4) % 4, (k // 16) % 2]
             c["log"] = random_log(rng, bool(c["cls"]))
             k += 1
@@ -230,6 +236,8 @@ class C11:
         for j, c in enumerate(io_histories(tier, rng, n)):
             if j % 3 == 0:
                 c["ids"] = "jstr"
+            elif j % 7 == 1:
+                c["ids"] = "jmix"
             c["gattr"] = rng.choice([0, 0, 3, 7])
             c["dflt"] = rng.choice([0, 1])
             yield c
